@@ -74,9 +74,13 @@ class RabbitMessageBroker(MessageBrokerT):
     ) -> None:
         logger.debug("Enqueueing message ({routing_key}).", extra={"routing_key": key})
 
+        if params is None:
+            # consumers can't decode a message without parameters
+            params = self.PARAMETERS_CLASS()
+
         body = MessageContent(
             payload=payload,
-            parameters=params.encode() if params is not None else "",
+            parameters=params.encode(),
         )
 
         exp: str | None = None
@@ -95,7 +99,7 @@ class RabbitMessageBroker(MessageBrokerT):
                 priority=key.priority,
                 expiration=exp,
                 delivery_mode=2 if self.idd(key) else 1,
-                timestamp=params.timestamp if params is not None else None,
+                timestamp=params.timestamp,
                 headers={"queue": key.queue, "topic": key.topic},
             ),
             mandatory=True,
